@@ -75,6 +75,11 @@ var (
 		"IsReturn": func(r lexer.Rule) bool {
 			return r == lexer.ReturnRule
 		},
+		"IsElided": func(r lexer.Rule) bool {
+			// Rules whose name starts with a lower-case letter are elided, as in the runtime lexer.
+			first, _ := utf8.DecodeRuneInString(r.Name)
+			return unicode.IsLower(first)
+		},
 		"OrderRules": orderRules,
 		"HaveBackrefs": func(def *lexer.StatefulDefinition, state string) bool {
 			for _, rule := range def.Rules()[state] {
